@@ -17,7 +17,8 @@ PROPS = {
                 'random byte strings biased to continuation bytes, v0/v1/v2 single-content framing; a case is non-trivial when the '
                 'list has >1 item or the byte string >1 byte; distinct = distinct input lines (hashed) among those'
                 ' Retention: the stream returned by the previous join / uTP encode is compared again after the next one. Decoders get exact-capacity inputs; a panic is an outcome.'
-                ' hugeenc: lists [2^28], [3, 2^28], [2^28-1] (thorough also [2^28, 2^28+1], [2^28, 0, 5]) of all-zero items: stream size and every length prefix are compared with Fr.streamLen / Leb of the lengths, value positions and the round trip are checked by the harness (about 1.3 GB peak).',
+                ' hugeenc: lists [2^28], [3, 2^28], [2^28-1] (thorough also [2^28, 2^28+1], [2^28, 0, 5]) of all-zero items: stream size and every length prefix are compared with Fr.streamLen / Leb of the lengths, value positions and the round trip are checked by the harness (about 1.3 GB peak).'
+                ' concframing: 8 goroutines join and split their own lists at once (300 rounds; thorough 5000): every result is what the same call gives alone.',
         'trusted': ['wabin leb128 (Go dependency) is re-modelled in Lean (Fr.enc/Fr.dec) and compared on every run'],
         'assumptions': ['Go slices are modelled as List Nat with every element < 256', 'item lengths < 2^32 (Go truncates uint32(len))'],
         'explanation': 'theorems over Fr.encContents/decContents/utpEnc/utpDec for all lists and all byte strings; '
@@ -33,7 +34,8 @@ PROPS = {
                 'by Get is kept and re-compared at the end of the history and after cache churn; non-trivial = the store was non-empty '
                 'when the operation ran; distinct = distinct operation lines'
                 ' Corpus histories replayed first (ids of one repeated byte, zero node id): a second prune that must empty the store after the radius has shrunk; one id put again and again, pruned, flushed and reopened; refused puts between accepted puts that land at, above and below the capacity; the counter at exactly 95 % of the capacity at a reopen; exactly at the capacity.'
-                ' A twentieth of the puts address the id at distance 1 (last or first byte) from the node id, and a quarter of the gets ask for it; clause pruned_item_stays_pruned: the number of retained items grows only by an accepted put.',
+                ' A twentieth of the puts address the id at distance 1 (last or first byte) from the node id, and a quarter of the gets ask for it; clause pruned_item_stays_pruned: the number of retained items grows only by an accepted put.'
+                ' Clause refused_put_changes_nothing: an accepted put that prunes nothing adds exactly its size to the persisted figure; a deviation with refused puts in between is attributed to them.',
         'trusted': ['pebble (ordered map, atomic batches) is modelled as a sorted association list'],
         'assumptions': ['content ids are 32 bytes and differ from the node id (as the property states)'],
         'explanation': 'refinement theorems (Sv.put_refines and its lift to every history) + step equality of get/put results with the '
@@ -49,7 +51,8 @@ PROPS = {
                 'the yield hook; non-trivial = the store was non-empty; distinct = distinct operation lines'
                 ' Forced schedule concprune: put A goes over capacity and waits in the fsync of its pruning batch (the log file sync is held back by the file system wrapper); put B of a near item runs meanwhile and, if it comes to prune too, is held at prune.beforeSubtract until A has returned; persisted and held are read at the end.'
                 ' Corpus histories replayed first (ids of one repeated byte, zero node id): a second prune that must empty the store after the radius has shrunk; one id put again and again, pruned, flushed and reopened; refused puts between accepted puts that land at, above and below the capacity; the counter at exactly 95 % of the capacity at a reopen; exactly at the capacity.'
-                ' A tiny-item history (1 MB capacity, 2600 far items of 0..8 bytes, then 40 near items of 20..49 kB) makes single pruning passes delete well over a thousand items.',
+                ' A tiny-item history (1 MB capacity, 2600 far items of 0..8 bytes, then 40 near items of 20..49 kB) makes single pruning passes delete well over a thousand items.'
+                " The database is also observed INSIDE three pruning puts (yield point between the put's commit and the pruning batch) and while a put waits in the fsync of its pruning batch: clause counter_ge_held_inside_pruning_put.",
         'trusted': ['pebble (ordered iteration, atomic batch) modelled as a sorted list', 'float64(cap)*0.05 modelled as cap/20 (exact for capacities that are multiples of 1 MB below 2^53; compared on every put)'],
         'assumptions': ['32-byte content ids'],
         'explanation': 'invariant theorems over all sequential put histories (St.run_inv, run_bounded) + exact step equality with the '
@@ -71,7 +74,8 @@ PROPS = {
                 'non-empty store / every triple; distinct = distinct lines'
                 ' Two stores in one process: B holds 5 small items, A is filled until it prunes; B is unchanged, still accepts, and a store opened afterwards starts at the maximum radius.'
                 ' Corpus histories replayed first (ids of one repeated byte, zero node id): a second prune that must empty the store after the radius has shrunk; one id put again and again, pruned, flushed and reopened; refused puts between accepted puts that land at, above and below the capacity; the counter at exactly 95 % of the capacity at a reopen; exactly at the capacity.'
-                ' Clause pruned_item_stays_pruned on every put and reopen (see C04).',
+                ' Clause pruned_item_stays_pruned on every put and reopen (see C04).'
+                ' The offer-filter site runs here as well (the offer scenario of C09: verdicts of the real handleOffer for both wire versions on nodes with no slots / plenty / a full validation queue).',
         'trusted': ['uint256 arithmetic modelled by Nat'],
         'assumptions': ['32-byte content ids'],
         'explanation': 'theorems about the ideal (big-endian) model over all histories; the real store is compared exactly with the '
@@ -89,7 +93,8 @@ PROPS = {
                 'distinct = distinct lines'
                 ' Framing: for the versions 0..3 placed in the cache, encodeUtpContent then decodeUtpContent of 0 / 1 / 127 / 128 / 1000 / 2000 / 70000 bytes must give the bytes back (which framing a version above 1 uses is left open).'
                 ' 20 cases of a peer the node already knows by an older table record (sequence 1, other version list) presenting a newer record.'
-                ' The uTP transfers of C08 (sizes 1177 and 4000, the self-framed values, stale-record and slow-log-sink pairings) run here as well: the negotiated version frames real streams.',
+                ' The uTP transfers of C08 (sizes 1177 and 4000, the self-framed values, stale-record and slow-log-sink pairings) run here as well: the negotiated version frames real streams.'
+                ' offerafterfail: node a (two slots) is handed offers for four peers it shares no version with (another version, an empty list, an undecodable entry, two unknown versions), then gossips one item to a peer advertising {0,1}, {0} or {1}: the item arrives.',
         'trusted': ['go-pkgz expirable cache modelled as Option (one peer); ENR entry decoding (rlp) trusted'],
         'assumptions': ['own version list non-empty (currentVersions[0] is read unguarded)'],
         'explanation': 'theorems about the ideal negotiation for all lists and all call histories; the code is compared with the model '
@@ -103,7 +108,8 @@ PROPS = {
                  {'name': 'table-metrics', 'harness': ['table'], 'driver': ['table', 'C07'], 'env': {'VERIF_METRICS': '1'}}],
         'rule': 'operation sequences (add found/inbound/forced-live, delete, revalidation timer, revalidation answers delivered in any order (dead / alive / alive with a new record), lookup feedback incl. runs of consecutive failures) against the real portalwire.Table with a fake transport and a simulated clock; node ids from pools of 34/90 keys so that buckets fill and ids repeat; addresses from three public /24s (one crowded in every fourth sequence), LAN, loopback and missing; sequence numbers 1..3; after every operation the full snapshot (entries with record/credit/verified flag/list, replacement order, per-bucket and table-wide /24 counters, fast/slow lists, active requests) must equal the model; non-trivial = the table held at least 8 entries; distinct = distinct operation lines among those'
                 ' A quarter of the records of known ids keep the address of the previous record and move only the port or only the sequence number.'
-                ' A seventh of the public addresses are announced in the v4-mapped IPv6 form (another address, /24 = ::/24), a third of the address-keeping updates switch between the two forms; a ninth of the records carry sequence numbers from {0, 2^32, 2^63-1, 2^63, 2^64-2, 2^64-1}. A second, shorter pass runs with go-ethereum metrics enabled.',
+                ' A seventh of the public addresses are announced in the v4-mapped IPv6 form (another address, /24 = ::/24), a third of the address-keeping updates switch between the two forms; a ninth of the records carry sequence numbers from {0, 2^32, 2^63-1, 2^63, 2^64-2, 2^64-1}. A second, shorter pass runs with go-ethereum metrics enabled.'
+                " Every third sequence runs a table configured with 1..4 boot nodes (a third of them the local node's own record): op loadseeds = the seed-loading step at construction and, with probability 1/25 per operation, of a refresh.",
         'trusted': ['enode.LogDist, netutil.DistinctNetSet/AddrIsLAN (re-modelled; compared on every snapshot)', 'operations are applied serially through the same handlers the table loop calls'],
         'assumptions': ['a revalidation answer carries a record of the node that was asked (the transport filters distance 0)'],
         'explanation': 'Tb.inv_reachable2: invariant by induction over all operation lists; snapshots of the real table equal the model after every operation; '
@@ -156,7 +162,8 @@ PROPS = {
                 'duplicate, own-record, low-port (0,1,80,1023,1024,1025), unrelayable records and distance filters; non-trivial = non-empty reply / '
                 '>=2 records; distinct = distinct lines'
                 ' Every other asker round runs with a NetRestrict allow-list containing the loopback and LAN ranges and half of the public addresses; each record is described with whether it is on the list.'
-                ' A third of the NODES cases go through the whole round trip (real findNodes: request encoded, sent over discv5 to a scripted peer that answers with the crafted message); request lists repeat a distance in a row with probability 1/5 per entry. Both scenarios run a second pass with metrics enabled.',
+                ' A third of the NODES cases go through the whole round trip (real findNodes: request encoded, sent over discv5 to a scripted peer that answers with the crafted message); request lists repeat a distance in a row with probability 1/5 per entry. Both scenarios run a second pass with metrics enabled.'
+                ' After each responder round six goroutines ask at once, each for ONE distance of its own (150 requests each; thorough 2000): every record of every reply lies at the distance that reply was asked for.',
         'trusted': ['enode.New (signature check), enode.LogDist, netutil.CheckRelayIP (rendered by address class and compared with the real function on every record), rlp, v5wire packet framing (size model Pk)'],
         'assumptions': ['request ids are at most 8 bytes (discv5)', 'NetRestrict is nil in the harness (the model keeps the clause)'],
         'explanation': 'theorems: nodes_rule, nodes_fits (datagram <= 1280 from the RLP size arithmetic), accept_only_if; the responder is checked as a '
@@ -175,7 +182,8 @@ PROPS = {
                 'an in-memory link), sizes {0,1,1174..1177,4000} (thorough: up to 100000), the four version pairings of {0},{0,1}; bytes received must '
                 'equal bytes stored and no datagram may exceed 1280; non-trivial = table with more than 2 entries / every transfer; distinct = distinct lines'
                 ' Transfers where the serving side holds an OLDER record of the asker (sequence number 1) advertising another version list than the asker now does.'
-                " Transfers also carry values that look like a framed stream (varint length + that many bytes, once and twice nested), and two pairings serve through a slow log sink (300 ms on the line before the uTP accept is registered), so that the asker's SYN arrives first. The responder scenario runs a second, shorter pass with metrics enabled.",
+                " Transfers also carry values that look like a framed stream (varint length + that many bytes, once and twice nested), and two pairings serve through a slow log sink (300 ms on the line before the uTP accept is registered), so that the asker's SYN arrives first. The responder scenario runs a second, shorter pass with metrics enabled."
+                " Pinned stream ids: for ids 0, 1, 0xffff and a random one the harness plays the serving half (accept on recv=id+1/send=id, frame, write, close) and the asker's real reply processing takes the CONTENT message announcing that id.",
         'trusted': ['utp-go (reliable ordered stream), v5wire framing; enode.LogDist; sort.Slice order among ties is taken from the implementation'],
         'assumptions': ['no packet loss in the quick tier'],
         'explanation': 'theorems found_small, found_large (with C19 symmetry and C15 framing), not_found, one_packet; step equality of the reply with the '
@@ -216,7 +224,8 @@ PROPS = {
                 'the cache must equal the model; plus pings through the real asynchronous handler (polled); non-trivial = at least one covered '
                 'node / every event; distinct = distinct lines'
                 ' One ping in eight announces a newer record than the one held and the record request then fails.'
-                " Content ids are scripted through the protocol's key-to-id function: a fifth are the bitwise complement of a table node's id (or differ from it in the last bit); an eighth of the cached radii equal the distance, an eighth are one above; 'covers' is computed by the harness from the XOR distance (not by the code's inRange). The gossip scenario runs a second pass with metrics enabled.",
+                " Content ids are scripted through the protocol's key-to-id function: a fifth are the bitwise complement of a table node's id (or differ from it in the last bit); an eighth of the cached radii equal the distance, an eighth are one above; 'covers' is computed by the harness from the XOR distance (not by the code's inRange). The gossip scenario runs a second pass with metrics enabled."
+                ' Radius histories run on a third node whose buckets have room, and take a further event: a FINDCONTENT answer of the closer-nodes kind from the peer (it may enter the table by it; the cache entry stays what it was).',
         'trusted': ['fastcache as a map (no eviction at these sizes); in-range test (C06) as observed by the real function'],
         'assumptions': ['ping payloads are processed in the order given (the handler processes them in fresh goroutines)'],
         'explanation': 'theorems gossip_rule (from the Allowed relation), radius_is_last_report (all report sequences), unknown_never_target; relation check on '
@@ -236,7 +245,8 @@ PROPS = {
                 ' Inbound: two accepted offers (v0 and v1) hold two of three slots while the node waits; all slots are back after the 15 s connect timeout of peers that never connect, after Stop() while waiting, and after an offer that arrives after Stop().'
                 " permitops lines are also judged by an exactly-once accounting on the implementation's own answers (a grant while `limit` are out, free + out != limit)."
                 ' Offers that cannot be sent (65-67 keys, a 2049+-byte key, no keys) and an accepting reply processed after Stop().'
-                " gossiprace: 4 callers x 1500 (thorough 20000) GossipAndReturnPeers next to one goroutine that keeps the offer queue full and one that keeps emptying it (slot limit 3000 > queue capacity); when all have stopped and the queue is empty every slot is free. Expected free-slot counts of every scripted outcome come from the model's exit table (Pm.outCalls / inCalls). A second pass runs with metrics enabled.",
+                " gossiprace: 4 callers x 1500 (thorough 20000) GossipAndReturnPeers next to one goroutine that keeps the offer queue full and one that keeps emptying it (slot limit 3000 > queue capacity); when all have stopped and the queue is empty every slot is free. Expected free-slot counts of every scripted outcome come from the model's exit table (Pm.outCalls / inCalls). A second pass runs with metrics enabled."
+                ' accepted_dial_unanswered: ACCEPTs naming connection ids 0, 1, 0xffff and a random one whose dial nobody answers - the slot is back when the sending goroutine gives up.',
         'trusted': ['golang.org/x/sync/semaphore as a counter; utp-go'],
         'assumptions': ['RPC-initiated offers use NoPermit by design and are outside the bound', 'dial/read failures after an accepted offer wait for 15 s timeouts and are exercised in the thorough tier only'],
         'explanation': 'theorems held_le_limit, conservation, quiescent_full over all interleavings; step equality for the controller; "slot returned" monitors per outcome on the real code',
@@ -261,7 +271,8 @@ PROPS = {
                 'verified. non-trivial = the update passes the participation/time/period/relevance tests (so proofs and signature decide) or '
                 'changes the store, and every bootstrap; distinct = distinct input lines among those'
                 ' A quarter of the branch corruptions zero the whole finality / next-committee branch.'
-                ' A quarter of the sequences start in the last 300 slots of periods 289, 565, 757 or 1052 and walk across the Altair / Bellatrix / Capella / Deneb activation (half of their updates are attested in the last two slots of the old fork and signed in the new one); corruption kind domain-other-fork: a genuine signature of the same signers under the fork version of the attested slot or of a neighbouring fork.',
+                ' A quarter of the sequences start in the last 300 slots of periods 289, 565, 757 or 1052 and walk across the Altair / Bellatrix / Capella / Deneb activation (half of their updates are attested in the last two slots of the old fork and signed in the new one); corruption kind domain-other-fork: a genuine signature of the same signers under the fork version of the attested slot or of a neighbouring fork.'
+                ' Every committee has seats that share a key ({7,300},{10,11},{100,101,102},{511,0}); corruption shared-seat-signed-once: two participating seats share a key and the aggregate counts it once.',
         'trusted': ['BLS12-381 (kilic via blsu) — as an abstraction: a signature is taken to be valid iff its bytes are intact, the signed message is the signing root '
                     'of the attested header under the fork version and genesis root given to verification, and the keys selected by the bits are the keys that signed',
                     'SSZ hash_tree_root of SyncCommittee (512 keys), ExecutionPayloadHeader and ExecutionBranch by zrnt; header roots, Merkle folds, domain and signing '
@@ -289,7 +300,8 @@ PROPS = {
                 'StX.reopen of the image after SOME prefix of the committed batches of the model; non-trivial = the explaining prefix is non-empty; '
                 'distinct = distinct lines'
                 ' Torn writes: for every cut that is a write to a write-ahead log file, 5 (thorough 9) further images in which only a prefix of the bytes of that write reached the file (unsynced data kept); every log write is among the cuts.'
-                ' Corpus histories replayed first (ids of one repeated byte, zero node id): a second prune that must empty the store after the radius has shrunk; one id put again and again, pruned, flushed and reopened; refused puts between accepted puts that land at, above and below the capacity; the counter at exactly 95 % of the capacity at a reopen; exactly at the capacity.',
+                ' Corpus histories replayed first (ids of one repeated byte, zero node id): a second prune that must empty the store after the radius has shrunk; one id put again and again, pruned, flushed and reopened; refused puts between accepted puts that land at, above and below the capacity; the counter at exactly 95 % of the capacity at a reopen; exactly at the capacity.'
+                ' The corpus run ends with the tiny-item history (single pruning passes of more than a thousand deletions) followed by a reopen.',
         'trusted': ['pebble: atomic batches, loss of at most a suffix of unsynced batches (checked by the prefix relation on every run, not proved)', 'vfs.StrictMem gives the two extremes per cut (all unsynced kept / all dropped), not per-file mixtures'],
         'assumptions': ['sequential histories (one writer)', '32-byte ids'],
         'explanation': 'theorems: every image after every batch is consistent (crash_images_ok), reopen on a consistent image gives a store satisfying the full invariant, prunes when '
@@ -314,7 +326,8 @@ PROPS = {
                 'tampering (same-size and re-laid-out containers across every boundary), slots beyond the tables and before the Capella start, summaries '
                 'supplied by an oracle (empty/short cache, long/short/failing/absent oracle). Non-trivial = the case reached a Merkle comparison or an unchecked '
                 'table access (not a mere length error); distinct = distinct case lines among those'
-                " After copying a proof it was handed, the harness overwrites every node of it; the implementation's own proof is folded by the model's validator (clause honest_proof_verifies).",
+                " After copying a proof it was handed, the harness overwrites every node of it; the implementation's own proof is folded by the model's validator (clause honest_proof_verifies)."
+                ' Lagging oracle: the validator trusts the full summaries list, a rightly rejected proof beyond every summary makes it ask an oracle that knows fewer, the honest proofs are checked again.',
         'trusted': ['SHA-256 is an executable Lean function in the driver (lean/Shisui/Sha256.lean) compared against crypto/sha256, fastssz and zrnt through every root and verdict of the run',
                     'go-ethereum Header.Hash (keccak of the RLP) is taken from the implementation: the model works on (block number, header hash)',
                     'fastssz VerifyProof / zrnt VerifyMerkleBranch are re-modelled as Mk.fold; fastssz/ztyp merkleisation as Mk.build (compared on every accumulator of the run)',
@@ -358,7 +371,8 @@ PROPS = {
                 'refused (gate), content was present locally or remotely (get); distinct = distinct input lines among those'
                 " Content is judged by an independent decoding (generated SSZ container, then go-ethereum rlp / UnmarshalBinary per field), never by the repository's Decode* helpers; field mutations include uncles / transaction / withdrawal / receipt fields that are not valid RLP at all and every single-bit flip of a short uncles field."
                 " Keys with bytes slipped in between selector and hash, hashes with a prefix, and a header source that serves this block's header whatever key is asked."
-                ' Synthetic blocks contain blob transactions; mutation f-tx-pool-form re-encodes a blob transaction of the body in its transaction-pool form (with an empty or a one-blob sidecar).',
+                ' Synthetic blocks contain blob transactions; mutation f-tx-pool-form re-encodes a blob transaction of the body in its transaction-pool form (with an empty or a one-blob sidecar).'
+                ' Every value is also offered re-framed (all leading offsets raised by n = 1, 4, 32 with n stray bytes after the offset table); the oracle splits header-with-proof itself (first offset exactly 8) instead of with the generated decoder.',
         'trusted': ['go-ethereum rlp / Header.Hash / DeriveSha / CalcUncleHash, the fastssz containers and the header-proof check of C03 are '
                     'parameters of the model (Hc.Env); the harness evaluates them once per case, outside the validator, and sends the results',
                     HASHES],
@@ -391,7 +405,8 @@ PROPS = {
                 'generated and damaged nodes, 1500 types.FullAccount cases, Keccak-256 at the block boundaries. Thorough: 20 worlds, account and storage tries to 500 leaves, 8 '
                 'mutations per target. Non-trivial = at least two proof nodes (one link walked); distinct = distinct input lines among those'
                 " A third of the storage-node items are also offered under an account that has no storage (empty storage root) with that account's genuine proof."
-                " Mutation last-short-slice: the claimed node is a 1..31-byte slice of its parent's encoding (a third of the time its tail) and the key names the slice's hash.",
+                " Mutation last-short-slice: the claimed node is a 1..31-byte slice of its parent's encoding (a third of the time its tail) and the key names the slice's hash."
+                ' Account tries with 31-, 30- and 16-byte keys: the proof for such a key offered (bytecode and storage-node items) for a 32-byte address hash that begins with it.',
         'trusted': [HASHES,
                     'ztyp SSZ decoding of key and value is not re-modelled: the harness serialises structured items with the repo\'s own Serialize methods; the '
                     'model takes the fields and the decoders\' limits (64 nibbles, 65 nodes, 1024-byte nodes, 32768-byte code)',
@@ -427,7 +442,8 @@ PROPS = {
                 'repository\'s portal-spec-test vectors for the beacon wrappers. Not crossed: 16 MiB per transaction, 128 MiB per receipt, 2^24 historical summaries. '
                 'non-trivial = a value case, or a byte string that decodes; distinct = distinct input lines among those'
                 ' Retention: after each decode (and each encode) of a type, the object (bytes) produced by the PREVIOUS decode (encode) of that type is read again and must be unchanged.'
-                ' The four fork-tagged wrappers (2 values per fork) and LightClientUpdateRange (n = 0,1,2,3,5,128,129) are also run under configs.Minimal (sync committees of 32 keys).',
+                ' The four fork-tagged wrappers (2 values per fork) and LightClientUpdateRange (n = 0,1,2,3,5,128,129) are also run under configs.Minimal (sync committees of 32 keys).'
+                ' Byte-list limits of the history containers crossed with real values: one transaction of 2^24 / 2^24+1 bytes (legacy and Shanghai bodies), uncles of 2^17 / 2^17+1, one receipt of 2^24, 2^24+1, 20 MiB (thorough: 2^27, 2^27+1).',
         'trusted': ['fastssz helpers (DecodeDynamicLength, UnmarshalDynamic, DivideInt2, ValidateBitlist) and ztyp codec (Container, FixedLenContainer, List, '
                     'ByteList) are re-modelled in Lean from their source for the shapes shisui uses and compared with the real code on every case',
                     'the schemas in lean/Shisui/Ssz/Schemas.lean are transcribed by hand from struct tags and Marshal/Unmarshal bodies (no extractor in this '
@@ -474,7 +490,8 @@ PROPS = {
                 'string has more than 2 bytes (talk/resp/oc), the key more than 1 byte (get/put/val), a non-empty path (trav); distinct = distinct lines'
                 ' After the look-ups every beacon vector is put again and read back twice, with look-ups of slot+1 / slot-1 in between (a look-up path that keeps a lock wedges the next writer).'
                 ' Group utpbody: looked-up items over a uTP stream a second real instance really serves, framed honestly, raw where the asker expects the version-1 frame (decode error after a complete read), framed where it expects raw bytes.'
-                " Validator cases also take synthetic bodies WITH transactions (legacy and Shanghai) and 24 disturbed copies of each; the byte mutator rewrites entries of the leading offset table with values taken from the table's own geometry (just before / at another field's start, inside the preceding fields, first+1, len, len+1).",
+                " Validator cases also take synthetic bodies WITH transactions (legacy and Shanghai) and 24 disturbed copies of each; the byte mutator rewrites entries of the leading offset table with values taken from the table's own geometry (just before / at another field's start, inside the preceding fields, first+1, len, len+1)."
+                " pongseq: a peer of our table answers our PING with a PONG announcing a newer record; our FINDNODES for distance 0 is answered with its new record, nothing, somebody else's record, a record with a broken signature, the record twice: the PING comes back fine, nothing panics.",
         'trusted': ['rlp, ztyp/zrnt SSZ containers, ping-extension payloads, ENR verification, Merkle/Keccak checks, pebble and utp-go are dependencies: not modelled '
                     'byte for byte (model outcome `handled` = value or error), assumed panic-free and sampled by the correspondence run',
                     'fastssz helpers (ReadOffset, DecodeDynamicLength, UnmarshalDynamic, DivideInt2, ValidateBitlist) and go-bitfield Len/BitIndices are re-modelled in Lean',
